@@ -49,3 +49,41 @@ ENGINES = [
     {"name": "exprsmt", "path": "/verif/exprsmt", "serves_properties": ["C14", "C04"],
      "kind_free_text": "Rust driver running every backend's generator on probe worlds + Python expression extractors/translators to SMT; CBMC on generated C; Kani on generated Rust"},
 ]
+
+_RS2SMT_NOTE = ("Trusted: rs2smt library models of the Rust std/heck/semver operations used (listed in evidence.trusted_base; heck model validated exhaustively "
+                "against the real crate each run), bounded ASCII strings as bit-vector character arrays, z3 5.1 + z3 4.8.12 racing with cvc5 as capped second "
+                "opinion; translator validated every run against the natively compiled functions (repo unit tests + 200 seeded cases); every sat model is "
+                "replayed natively before VIOLATION. Anything outside the interpreted Rust subset => UNSUPPORTED => exit 2.")
+CLAIMED.update({
+    "C10": dict(engine="cgen", level=_TV, ref="DESIGN §1/E4, §4/C10, §8.4",
+                note="Trusted: cgen/canon.py reference encoder/decoder generated from the WIT type (written from the canonical ABI, not from the bindings), "
+                     "CBMC 6.11 C semantics with --32 --little-endian (wasm32 layout), libc header shim; no wasm host exists here, so 'as judged by an independent "
+                     "host' is replaced by that reference. Worlds are ENUMERATED (63 quick / 97 thorough x option sets), values nondet; lists/strings <= 2 / 3.",
+                technique="CBMC over the real generated C bindings linked with generated host harnesses (nondet values, reference canonical-ABI encoder/decoder as oracle)",
+                text="For every world of the corpus x option set, both directions: the core arguments / parameter record / return area the generated wrapper "
+                     "produces equal the reference encoding of the nondet C value and the value it returns equals the reference decoding, for all values within "
+                     "the bounds (unwinding assertions on, reachability witnesses per harness)."),
+    "C11": dict(engine="cgen", level=_TV, ref="DESIGN §1/E4, §4/C11, §8.4",
+                note="As C10, with CBMC's --memory-leak-check/--pointer-check/--bounds-check as the ownership oracle; handles != 0 assumed; alignment not observable in CBMC.",
+                technique="CBMC memory-safety/leak checking over generated C glue, *_free helpers and resource wrappers with nondet values and bounded operation sequences",
+                text="post-return frees exactly what the export glue allocated, import wrappers free nothing of the caller's, generated *_free helpers release exactly "
+                     "the owned blocks of a nondet value, resource create/borrow/drop sequences (<= 3 ops) run the user destructor once; [dtor] export name equals the canonical string."),
+    "C17": dict(engine="rs2smt", level="proof", ref="DESIGN §1/E6, §4/C17, §8.4", note=_RS2SMT_NOTE,
+                technique="symbolic interpretation of the current Rust source (syn AST) -> SMT (QF_BV bounded strings), z3/cvc5",
+                text="Bounded proof over all directive lists (<= 3 / 4 directives, <= 12 chars over a 15-char alphabet) and queries: AsyncFilterSet selects by the first matching "
+                     "directive else the WIT kind, ensure_all_used errs iff a non-`all` directive never matched, parse(display(d)) == d, no panic. The generator-side use of the answer is outside."),
+    "C26": dict(engine="rs2smt", level="proof", ref="DESIGN §1/E6, §4/C26, §8.4", note=_RS2SMT_NOTE,
+                technique="symbolic interpretation of the current Rust source (syn AST) -> SMT (QF_BV bounded strings), z3/cvc5",
+                text="Bounded proof over all interleavings of <= 4 (6 thorough) insert/tmp calls with names <= 3 chars over {a,b,0,1}: tmp never returns a previously "
+                     "defined/returned name, insert of an existing name is Err, loop unwinding obligation discharged."),
+    "C34": dict(engine="rs2smt", level="proof", ref="DESIGN §1/E6, §4/C34, §8.4", note=_RS2SMT_NOTE + " TOML parsing is a recording shim: the property is about which text reaches it.",
+                technique="symbolic interpretation of the current Rust source (syn AST) -> SMT (QF_BV bounded strings), z3/cvc5",
+                text="Bounded proof over all files <= 12 (16) chars and markers <= 3 chars: the text handed to the TOML parser is exactly the marker-stripped leading marker "
+                     "lines; a whitespace-separated argument string equals the list of its words."),
+})
+ENGINES += [
+    {"name": "cgen", "path": "/verif/cgen", "serves_properties": ["C10", "C11"],
+     "kind_free_text": "Python: WIT corpus, reference canonical-ABI encoder/decoder generator (C), harness generator; CBMC --32 on the real generated C; native gcc replay"},
+    {"name": "rs2smt", "path": "/verif/rs2smt", "serves_properties": ["C17", "C25", "C26", "C27", "C34"],
+     "kind_free_text": "syn-based AST dumper (Rust) + generic symbolic interpreter for a Rust subset (Python) emitting QF_BV SMT-LIB; native harness crate for translator validation and replay"},
+]
